@@ -70,7 +70,7 @@ let () =
         (try
           let b = bytes_of_file src in
           let rc = read_bytes_checked b and ru = read_bytes_unchecked b and rm = read_mem_checked b in
-          let tail = match snd (decode_prefix (whole_blocks b)) with None -> "none" | Some e -> err_name e in
+          let tail = match snd (decode_prefix b) with None -> "none" | Some e -> err_name e in
           let oc = open_out dst in
           (match rc with
            | RAccept t -> output_string oc "ACCEPT\n"; dump_table oc t
